@@ -1,0 +1,15 @@
+//go:build verif && linux
+
+package ztp
+
+// Add-only verification hooks for property C09 (no packet from the network can
+// crash or hang the gateway).  Compiled only with `-tags verif`; nothing here
+// changes behaviour.
+
+import "github.com/insomniacslk/dhcp/dhcpv4"
+
+// VerifC09ParseVendorOptions calls the option-43 vendor sub-option parser.
+func VerifC09ParseVendorOptions(data []byte) string { return parseVendorOptions(data) }
+
+// VerifC09ExtractNexusURL calls the ACK option extractor (option 224, then option 43).
+func VerifC09ExtractNexusURL(ack *dhcpv4.DHCPv4) string { return extractNexusURL(ack) }
